@@ -148,9 +148,15 @@ def one_case(c, tmp, i):
         # half of the loads ask for a blank dataset should no file exist (one does: it must be loaded)
         create_new = rng.random() < 0.5
         rep["create_new"] = create_new
-        back = xyzpy.load_ds(path, engine=engine, chunks=chunks, **({"create_new": True} if create_new else {}))
-        if chunks is not None:
+        # lazily or into memory (load_to_mem is only meaningful without chunks; joblib always loads)
+        ltm = rng.choice([None, None, True, False]) if (chunks is None and engine != "joblib") else None
+        rep["load_to_mem"] = ltm
+        back = xyzpy.load_ds(path, engine=engine, chunks=chunks, **({"create_new": True} if create_new else {}),
+                             **({"load_to_mem": ltm} if ltm is not None else {}))
+        if chunks is not None or ltm is False:
+            lazy = back
             back = back.compute()
+            lazy.close()
         # ... and for a name that was never saved create_new gives a blank dataset, without creating a file
         blank = xyzpy.load_ds(path + "-never-saved", engine=engine, create_new=True)
         if len(blank.data_vars) or len(blank.dims) or \
@@ -238,7 +244,8 @@ def sync_conflict_stream(c, tmp, n):
         err = None
         try:
             with contextlib.redirect_stdout(io.StringIO()):
-                xyzpy.manage.merge_sync_conflict_datasets(base + "*", engine=engine)
+                xyzpy.manage.merge_sync_conflict_datasets(base + "*", engine=engine,
+                                                          **({"combine_first": True} if rng.random() < 0.5 else {}))
             back = xyzpy.load_ds(base, engine=engine)
             want = sorted({int(x) for p in parts for x in p["a"].values})
             got = {int(x): float(v) for x, v in zip(back["a"].values, back["out"].values)}
